@@ -8,6 +8,7 @@ import (
 	"io"
 	"os"
 	"os/exec"
+	"strings"
 	"sync"
 	"syscall"
 	"time"
@@ -59,6 +60,16 @@ func init() {
 			ropt.MetadataOnly = func(string, *types.Stat) bool { return true }
 		case "files":
 			ropt.MetadataOnly = func(_ string, st *types.Stat) bool { return os.FileMode(st.Mode)&os.ModeType == 0 }
+		default:
+			if strings.HasPrefix(o.MetaOnly, "not:") {
+				// everything except the listed paths (a selector that is not
+				// closed under hard-link sources: the caller cannot know them)
+				skip := map[string]bool{}
+				for _, p := range strings.Split(o.MetaOnly[4:], "\x00") {
+					skip[p] = true
+				}
+				ropt.MetadataOnly = func(p string, _ *types.Stat) bool { return !skip[p] }
+			}
 		}
 		err := fsutil.Receive(ctx, s, o.Dest, ropt)
 		res := recvProcResult{OK: err == nil}
